@@ -102,12 +102,23 @@ def gen(rng, tier):
             continue
         form = rng.choice(["string", "function", "function", "module"])
         body, raise_line, sends, nrecv, has_close = gen_body(rng, label, form)
+        peer_closed = rng.random() < 0.12
+        if peer_closed:
+            # the initiating side closes the channel while the body runs: the body sees the end of its input and then
+            # tries to close the (already closed) channel itself - refused all the same, the code is still executing
+            body = ["import vsim_bridge as _b",
+                    "_b.note('start', %r, __name__, 'channel' in dir() or 'channel' in globals())" % label,
+                    "try:", "    channel.receive()", "except EOFError:", "    pass",
+                    "try:", "    channel.close()", "    _b.note('close-accepted', %r)" % label,
+                    "except OSError:", "    _b.note('close-refused', %r)" % label,
+                    "_b.note('end', %r)" % label, "_b.latch_set('end-%s')" % label]
+            raise_line, sends, nrecv, has_close = None, [], 0, True
         kwargs = {}
         if form == "function":
             for j in range(rng.randrange(0, 4)):
                 kwargs[f"k{j}"] = L.gen_fill(rng)
         items.append({"kind": "valid", "label": label, "form": form, "body": body, "raise_line": raise_line,
-                      "sends": sends, "nrecv": nrecv, "has_close": has_close, "kwargs": kwargs,
+                      "sends": sends, "nrecv": nrecv, "has_close": has_close, "kwargs": kwargs, "peer_closed": peer_closed,
                       "lead": rng.randrange(0, 6), "defaults": rng.random() < 0.3, "nested": form == "function" and rng.random() < 0.2,
                       "sig": rng.choice(["plain", "plain", "posonly", "kwonly", "varkw"])})
     return {"gateways": specs, "actors": [{"side": "i", "gw": gwi, "chan": None, "ops": [["c06_script"], ["terminate", 10.0]]}],
@@ -297,6 +308,9 @@ def c06_script(ctx, aid, oi, table, op):
                     ch.send(("#IT:%s:i2w:m:%d#" % (label, j), j))
                 except OSError:
                     break
+            if it.get("peer_closed"):
+                ch.close()
+                ctx.latch("end-%s" % label).wait(600)
             # collect everything until the end
             got = []
             end = None
@@ -432,7 +446,7 @@ def oracle(case, res, hist):
                 V.append(v("normal-end-not-clean", k, f"{label}: receive ended with {end}, waitclose {wc}"))
             if not endn:
                 V.append(v("channel-closed-before-body-finished", k, f"{label}: channel reported closed, body never reached its last statement"))
-            elif endn[0] > fin_seq:
+            elif endn[0] > fin_seq and not it.get("peer_closed"):
                 V.append(v("channel-closed-before-body-finished", k, f"{label}: waitclose returned at {fin_seq}, body ended at {endn[0]}"))
         else:
             if not end or end[0] != "remote":
